@@ -27,6 +27,8 @@ var (
 	hookBuf       []hookEv
 	pendingBlocks []hookEv
 	regBuf        []hookEv
+	unrecorded    atomic.Int64
+	hooksCont     bool
 	regLines      int
 	abiNames      map[uintptr]abiName
 )
@@ -94,11 +96,14 @@ func init() {
 			gate(hookEv{ev, a, b, c, 0}) // holds the goroutine of a gated step (forced schedules), else returns at once
 		}
 		if !hookOn.Load() {
+			if ev == verifhook.EvSpanMalloc {
+				unrecorded.Add(1) // the model's allocator state is stale after this: the next Hooks line says so
+			}
 			if ev == verifhook.EvSpanBlock {
 				// a block taken while nothing is recorded: remember it, so that the next recorded
 				// allocation is reported relative to the right block
 				hookMu.Lock()
-				pendingBlocks = append(pendingBlocks, hookEv{ev, a, b, c, 0})
+				pendingBlocks = append(pendingBlocks, hookEv{ev, a, b, c, -1}) // g = -1: taken while not recording
 				hookMu.Unlock()
 			}
 			return
@@ -126,6 +131,7 @@ func goid() int {
 }
 
 func hooksStart() {
+	hooksCont = unrecorded.Swap(0) == 0
 	hookMu.Lock()
 	hookBuf = append(hookBuf[:0], pendingBlocks...)
 	pendingBlocks = pendingBlocks[:0]
@@ -149,7 +155,8 @@ func hooksLine() string {
 	hookMu.Unlock()
 	gids := map[int]int{}
 	var b bytes.Buffer
-	b.WriteString(`"ev":"Hooks","obs":{"out":"ok","events":[`)
+	// cont: no allocation was served unrecorded since the previous Hooks line (else the model starts afresh)
+	fmt.Fprintf(&b, `"ev":"Hooks","cont":%v,"obs":{"out":"ok","events":[`, hooksCont)
 	for i, e := range evs {
 		if i > 0 {
 			b.WriteByte(',')
@@ -158,7 +165,13 @@ func hooksLine() string {
 		case verifhook.EvSpanBlock:
 			id := idOf(spanIDs, e.c)
 			spanBase[e.c] = e.b
-			fmt.Fprintf(&b, `{"k":"block","span":%d,"size":%d,"bm":%d}`, id, clampU(e.a), e.b%4096)
+			if e.g == -1 {
+				// taken while nothing was recorded: allocations may have been served from it since; only the base
+				// address is known (the model forgets the span and adopts the next allocation it sees)
+				fmt.Fprintf(&b, `{"k":"base","span":%d}`, id)
+			} else {
+				fmt.Fprintf(&b, `{"k":"block","span":%d,"size":%d,"bm":%d}`, id, clampU(e.a), e.b%4096)
+			}
 		case verifhook.EvSpanMalloc:
 			id := idOf(spanIDs, e.c)
 			rel := -1
